@@ -317,6 +317,35 @@ func buildReplayOverlay(tmp, pkg, entry string) (string, error) {
 			}
 		}
 	}
+	// the repository's own test files are not part of a replay: they are replaced by their bare
+	// package clause (transport's test init loads a git-ignored certificate and would panic
+	// before the replay starts)
+	if ents, err := os.ReadDir(filepath.Join(repoDir(), pkg)); err == nil {
+		for _, e := range ents {
+			name := e.Name()
+			if e.IsDir() || !strings.HasSuffix(name, "_test.go") || strings.HasPrefix(name, "zz_verif_") {
+				continue
+			}
+			src, err := os.ReadFile(filepath.Join(repoDir(), pkg, name))
+			if err != nil {
+				continue
+			}
+			clause := ""
+			for _, line := range strings.Split(string(src), "\n") {
+				if strings.HasPrefix(line, "package ") {
+					clause = strings.TrimSpace(line)
+					break
+				}
+			}
+			if clause == "" {
+				continue
+			}
+			real := filepath.Join(tmp, fmt.Sprintf("t%d_%s", i, name))
+			i++
+			os.WriteFile(real, []byte(clause+"\n"), 0o644)
+			repl[filepath.Join(repoDir(), pkg, name)] = real
+		}
+	}
 	test := fmt.Sprintf("//go:build verif && verifreplay\n\npackage %s\n\nimport \"testing\"\n\nfunc TestVerifReplay(t *testing.T) { vReplayRun(t, %s) }\n", pkgName, entry)
 	tf := filepath.Join(tmp, "replay_test.go")
 	os.WriteFile(tf, []byte(test), 0o644)
@@ -448,7 +477,8 @@ func cmdReplay(args []string) int {
 	json.Unmarshal(b, &doc)
 	tmp, _ := os.MkdirTemp("", "gosmt-replay")
 	defer os.RemoveAll(tmp)
-	out, _ := runGoTest(tmp, doc.Pkg, doc.Harness, args[0], 150*time.Second)
+	abs, _ := filepath.Abs(args[0])
+	out, _ := runGoTest(tmp, doc.Pkg, doc.Harness, abs, 150*time.Second)
 	fmt.Println(out)
 	if replayShowsViolation(out, &Violation{Kind: doc.Kind, Msg: doc.Msg}) {
 		fmt.Println("REPLAY: violation reproduced")
